@@ -1,6 +1,8 @@
 """C12 — lookup, filtered iteration and bulk accessors agree with plain traversal (DESIGN §5.12: T2, T3)."""
 from ..e2.checklib import Lemma, run_lemmas
 
+F3 = ["zz_verif_tape.go", "zz_verif_wf.go", "zz_verif_t1.go", "zz_verif_edit.go", "zz_verif_t3.go"]
+
 
 def lemmas(tier):
     ls = []
@@ -9,9 +11,36 @@ def lemmas(tier):
                         splits=[{"numtag": i} for i in range(3)],
                         desc="numeric accessor on every 64-bit payload per tag (FP theory), reached through the public iterator API",
                         bound="all 2^64 payloads x {int64,uint64,float64} tags; one-element array", expect_reach=["T2." + fn.replace("Iter", "").replace("Array", "")]))
+    # T3: (harness, reach witness, [(cfg, sizes quick, sizes thorough)])
+    gen = ("general shapes (arrays+objects, depth<=3)", "objects with several members (keys of length 0/1, scalar values, NOP runs <= 3)")
+    plan = {
+        "FindKey": ("T3.FindKey", {0: (range(4, 9), range(4, 10)), 1: (range(7, 12), range(7, 14))}),
+        "FindPath": ("T3.FindPath", {0: (range(4, 8), range(4, 9)), 1: (range(7, 11), range(7, 13))}),
+        "FindElementArrayRoot": ("T3.FindElementArray", {None: (range(4, 8), range(4, 9))}),
+        "ForEachFilter": ("T3.ForEachFilter", {0: (range(4, 8), range(4, 9)), 1: (range(7, 12), range(7, 14))}),
+        "ParseLookup": ("T3.Parse", {0: (range(4, 8), range(4, 9)), 1: (range(7, 11), range(7, 13))}),
+        "Interface": ("T3.Interface", {0: (range(4, 9), range(4, 10)), 1: (range(7, 12), range(7, 14))}),
+        "ArrayAsString": ("T3.AsString", {None: (range(4, 8), range(4, 10))}),
+    }
+    for h, (reach, cfgs) in plan.items():
+        for cfg, (q, t) in cfgs.items():
+            for T in (q if tier == "quick" else t):
+                ch = {"T": T - 4}
+                if cfg is not None:
+                    ch["cfg"] = cfg
+                heavy = (cfg == 1 and T >= 11) or (cfg != 1 and T >= 8)
+                ls.append(Lemma("T3.%s.%sT%d" % (h, "" if cfg is None else "cfg%d." % cfg, T), "verifHarness_T3_" + h, F3,
+                                splits=[ch], split_depth=("auto" if heavy else 0),
+                                desc="%s on every well-formed tape of %d words [%s], symbolic query keys of length 0..2, against the "
+                                     "abstract document" % (h, T, gen[cfg or 0]),
+                                bound="tape = %d words; keys/strings <= 1 byte, query keys <= 2 bytes; filters 1-2 keys; paths <= 2 keys" % T,
+                                expect_reach=[reach] if T >= 7 or cfg != 1 else []))
     return ls
 
 
 def run(ctx):
     ctx.assume("float->int conversion modelled with amd64 semantics (cvttsd2si; uint64 via the 2^63 split)")
+    ctx.assume("key filters, FindPath, Parse/Map/Lookup assume unique keys within an object (property statement); FindKey = first match is checked with duplicates")
+    ctx.assume("Uint()/AsUint64 of a float in (-1,0): error or 0 both accepted (statement leaves it open)")
+    ctx.assume("strconv.FormatInt/FormatUint and floatToString are opaque stubs in AsStringCvt (oracle = plain traversal + StringCvt through the same stubs)")
     run_lemmas(ctx, lemmas(ctx.tier))
